@@ -36,6 +36,7 @@ RULE += (" A quarter of the rules has two conditions; a quarter of the streams d
 RULE += (" Rules have an id and a name, only a name or only an id; rule lists mix ids and names in both orders.")
 RULE += (" Filter documents stand at the end of the stream or between the rule documents (also directly before an action: repeat document).")
 RULE += (" Detection bodies of rules and filters come in the shapes rules are written in: one map, a map with two items, a list of maps, a value list.")
+RULE += (" A third of the cases also load the filters once as objects and apply them (apply_filters) to two freshly loaded copies of the rules in turn: both conversions equal the one of the stream and the filter objects serialise as before.")
 ASSUMPTIONS = [
     "vf/ref is the specification of rule and filter conditions; atoms independent",
     "the library's random prefix is drawn from random.choices; the case fixes random.seed",
@@ -245,6 +246,38 @@ def check_case(case: dict) -> Outcome:
                 continue
             if alone.get(r["title"]) != got.get(r["title"]):
                 out.fail("C11:not-isolated" + (":with-pipeline" if suffix else ""), f"rule {r['title']}: in collection {got.get(r['title'])}, alone with the same filters {alone.get(r['title'])}")
+    # filter objects loaded once and applied (SigmaCollection.apply_filters) to two freshly loaded collections one after the
+    # other: both must convert like the stream does, and the filter objects must still serialise as they did when loaded
+    if case.get("reuse_filter_objects") and not out.failures and not any("_repeat" in r or "correlation" in r for r in rules) \
+            and "global_product" not in case and "filter_pos" not in case:
+        from sigma.collection import SigmaCollection
+        from sigma.filters import SigmaFilter
+        from sigma.processing.pipeline import ProcessingPipeline
+        from vf.target.correlation import correlation_attrs
+        out.label("filter-objects-reused")
+        try:
+            fobjs = [SigmaFilter.from_dict(json.loads(json.dumps(f))) for f in filters]
+            before = [f.to_dict() for f in fobjs]
+            for round_ in (1, 2):
+                random.seed(rseed + round_)
+                coll = SigmaCollection.from_dicts(json.loads(json.dumps(rules)))
+                coll.apply_filters(fobjs)
+                pipeline = ProcessingPipeline.from_dict({"transformations": [{"type": "field_name_suffix", "suffix": suffix}]}) if suffix else None
+                per_rule = {}
+
+                def cb(rule, fmt, index, cond, result):
+                    per_rule.setdefault(rule.title, []).append(result)
+                    return result
+                make_backend(CFG, pipeline, extra_attrs=correlation_attrs({})).convert(coll, callback=cb)
+                if per_rule != got:
+                    t = next(k for k in set(per_rule) | set(got) if per_rule.get(k) != got.get(k))
+                    out.fail("C11:filter-objects-reused:queries-differ", f"application {round_} of the same filter objects: rule {t} converts to {per_rule.get(t)}, from the stream {got.get(t)}; filters {[f['filter'] for f in filters]}"[:900])
+                    break
+                if [f.to_dict() for f in fobjs] != before:
+                    out.fail("C11:filter-objects-reused:filter-changed", f"after application {round_} (pipeline suffix {suffix!r}) a filter serialises as {[f.to_dict()['filter'] for f in fobjs]}, loaded as {[b['filter'] for b in before]}"[:900])
+                    break
+        except (SigmaError, NotImplementedError) as e:
+            out.fail("C11:filter-objects-reused:error:" + type(e).__name__, f"{e}"[:500])
     return out
 
 
@@ -319,6 +352,8 @@ def cases(draw):
         case["global_product"] = draw(st.sampled_from(["win", "linux", "other"]))
     if draw(st.integers(0, 2)) == 0:
         case["filter_pos"] = draw(st.integers(0, len(rules) - 1))
+    elif draw(st.booleans()):
+        case["reuse_filter_objects"] = True
     return case
 
 
